@@ -378,6 +378,7 @@ def run_impl_parallel(modname, cases, jobs):
   # a hung case must not hang the check: the whole pool gets a generous deadline, after which the
   # workers are killed and the run ends as an infrastructure failure (exit 2), never as a verdict
   deadline = float(os.environ.get('VERIF_POOL_TIMEOUT', '1500' if len(cases) < 20000 else '5400'))
+  deadline *= max(1.0, 16.0 / max(jobs, 1))   # fewer worker processes (VERIF_JOBS) => proportionally more time
   ex = cf.ProcessPoolExecutor(max_workers=jobs, mp_context=mp.get_context('spawn'))
   try:
     res = list(ex.map(_impl_worker, [(modname, ch) for ch in chunks], timeout=deadline))
